@@ -419,7 +419,7 @@ def determinism_selftest(prop, n=12, fresh=True):
         for _rep in range(2):
             sc, res, _v = run_one(prop, fam, seed)
             rs = res if isinstance(res, list) else [res]
-            hs.append("|".join(trace_hash(r.trace) for r in rs))
+            hs.append("|".join(trace_hash(r.trace) for r in rs if r.scenario.get("hash_mode") != "address"))
         if hs[0] != hs[1]:
             return False, f"in-process divergence prop={prop} family={fam} seed={seed}"
         mine[f"{fam}:{seed}"] = hs[0]
@@ -447,7 +447,7 @@ def hashes_for(prop, n):
         seed = 900_000 + i
         sc, res, _v = run_one(prop, fam, seed)
         rs = res if isinstance(res, list) else [res]
-        out[f"{fam}:{seed}"] = "|".join(trace_hash(r.trace) for r in rs)
+        out[f"{fam}:{seed}"] = "|".join(trace_hash(r.trace) for r in rs if r.scenario.get("hash_mode") != "address")
     return out
 
 
